@@ -154,6 +154,10 @@ def run(prop, seed, budget, ctx):
             for _ in range(per):
                 d = g.valid(t)
                 if rnd.random() < 0.5: d = g.mutate(d)
+                agg = getattr(t, "aggregate", None)
+                if agg and isinstance(d, dict) and rnd.random() < 0.3:
+                    # a key spelled like the aggregate field itself is a key like any other (no property of the class has that name)
+                    d = dict(d); d[{"additional": "extras", "pattern": "pat", "flatten": "inner"}[agg["kind"]]] = rnd.choice([1, "x", None, {"p_x": 1}])
                 if common_domain(d): data.append(d)
             reqs.append({"id": len(reqs), "op": "schema", "ap": ap, "ty": t.lean, "data": [py_proto(d) for d in data]})
             meta.append((t, tp, ap, None, real, data, None))
